@@ -13,6 +13,8 @@ M = [
  ("c03_median_lower", ["C03"], "traits/src/header_provider.rs", "timestamps[timestamps.len() >> 1]", "timestamps[(timestamps.len() - 1) >> 1]"),
  ("c08_no_startup_recovery", ["C08"], "chain/src/init_load_unverified.rs", "        self.find_and_verify_unverified_blocks();\n", "        if false { self.find_and_verify_unverified_blocks(); }\n"),
  ("c10_wipe_next_number", ["C10"], "shared/src/shared.rs", "batch.delete_block_body(*number, hash, *txs)", "batch.delete_block_body(*number + 1, hash, *txs)"),
+ ("c10_freeze_without_final_sync", ["C10"], "freezer/src/freezer.rs", "        guard.files.sync_all().map_err(internal_error)?;\n        Ok(ret)\n    }", "        Ok(ret)\n    }"),
+ ("c10_wipe_leaves_last_tx", ["C10"], "shared/src/shared.rs", "batch.delete_block_body(*number, hash, *txs)", "batch.delete_block_body(*number, hash, txs.saturating_sub(1))"),
  ("c10_threshold_one_epoch_later", ["C10"], "shared/src/shared.rs", ".get_epoch_index(current_epoch + 1 - THRESHOLD_EPOCH)", ".get_epoch_index(current_epoch + 2 - THRESHOLD_EPOCH)"),
 ]
 REV = [  # reverting a fix commit (path restricted)
